@@ -426,11 +426,17 @@ func (c *RetryClient) Resubscribe(ctx context.Context) {
 		oldSubEstablished := append([]Subscription{}, c.subEstablished...)
 		c.subEstablished = nil
 
+		// Restore the subscriptions before the pending requests are retried,
+		// so that a pending unsubscribe is not undone by the re-subscription.
+		oldRetryQueue := c.retryQueue
+		c.retryQueue = nil
+
 		if len(oldSubEstablished) > 0 {
 			for _, sub := range oldSubEstablished {
 				c.subscribe(ctx, true, cli, sub)
 			}
 		}
+		c.retryQueue = append(c.retryQueue, oldRetryQueue...)
 	})
 }
 
